@@ -346,5 +346,5 @@ def spec_quic_fragment_ids(ck, nframes=2):
 def _quic_ids_replay_plan(ob):
     if (ob.target or '') != 'QuicFrameWriter (two sessions, one connection)':
         return None
-    return 'quic', {'driver': 'quic_two_sessions', 'args': {'frames': 40, 'frame_len': 30000}}, \
+    return 'quic', {'driver': 'quic_two_sessions', 'args': {'frames': 120, 'frame_len': 30000}}, \
         lambda o: o.get('sequential_control_clean') is True and (o.get('corrupted', 0) > 0 or o.get('lost', 0) > 0)
